@@ -28,6 +28,7 @@
 #include <algorithm>
 #include <functional>
 #include <iterator>
+#include <limits>
 #include <unordered_set>
 #include <utility>
 
@@ -127,7 +128,7 @@ namespace {
             Interval result;
             const ValueFlow::Value* minValue = getCompareValue(values, predicate, std::less<MathLib::bigint>{});
             if (minValue) {
-                if (minValue->isImpossible() && minValue->bound == ValueFlow::Value::Bound::Upper)
+                if (minValue->isImpossible() && minValue->bound == ValueFlow::Value::Bound::Upper && minValue->intvalue < std::numeric_limits<MathLib::bigint>::max())
                     result.setMinValue(minValue->intvalue + 1, minValue);
                 if (minValue->isPossible() && minValue->bound == ValueFlow::Value::Bound::Lower)
                     result.setMinValue(minValue->intvalue, minValue);
@@ -137,7 +138,7 @@ namespace {
             }
             const ValueFlow::Value* maxValue = getCompareValue(values, predicate, std::greater<MathLib::bigint>{});
             if (maxValue) {
-                if (maxValue->isImpossible() && maxValue->bound == ValueFlow::Value::Bound::Lower)
+                if (maxValue->isImpossible() && maxValue->bound == ValueFlow::Value::Bound::Lower && maxValue->intvalue > std::numeric_limits<MathLib::bigint>::min())
                     result.setMaxValue(maxValue->intvalue - 1, maxValue);
                 if (maxValue->isPossible() && maxValue->bound == ValueFlow::Value::Bound::Upper)
                     result.setMaxValue(maxValue->intvalue, maxValue);
@@ -172,11 +173,26 @@ namespace {
             return x;
         }
 
+        // x - y, or no bound when the difference is not representable
+        static std::vector<MathLib::bigint> minus(const std::vector<MathLib::bigint>& x,
+                                                  const std::vector<MathLib::bigint>& y)
+        {
+            if (x.empty())
+                return {};
+            if (y.empty())
+                return {};
+            if (y.front() > 0 && x.front() < std::numeric_limits<MathLib::bigint>::min() + y.front())
+                return {};
+            if (y.front() < 0 && x.front() > std::numeric_limits<MathLib::bigint>::max() + y.front())
+                return {};
+            return {x.front() - y.front()};
+        }
+
         friend Interval operator-(const Interval& lhs, const Interval& rhs)
         {
             Interval result;
-            result.minvalue = Interval::apply(lhs.minvalue, rhs.maxvalue, std::minus<MathLib::bigint>{});
-            result.maxvalue = Interval::apply(lhs.maxvalue, rhs.minvalue, std::minus<MathLib::bigint>{});
+            result.minvalue = Interval::minus(lhs.minvalue, rhs.maxvalue);
+            result.maxvalue = Interval::minus(lhs.maxvalue, rhs.minvalue);
             if (!result.minvalue.empty())
                 result.minRef = merge(lhs.minRef, rhs.maxRef);
             if (!result.maxvalue.empty())
